@@ -20,6 +20,8 @@ SHAPES = {
     "dsb": ("tsd", "str", VB),
     "lb": ("tsl", 2, VB),
     "dd": ("tsd", "int", ("tsd", "int", ("ts",))),
+    "bb": ("tsb", [("q", ("tsb", [("b", ("ts",)), ("a", ("ts",))])), ("l", ("ts",))]),
+    "bl": ("tsb", [("g", ("tsl", 2, ("ts",))), ("l", ("ts",))]),
 }
 KIND = {"ts": 0, "tss": 1, "tsd": 2, "tsl": 3, "tsw": 4, "tsb": 5}
 
